@@ -20,10 +20,10 @@ import (
 )
 
 type NetCfg struct {
-	Segment      bool          // reads return tape-chosen partial amounts
-	Latency      time.Duration // max per-segment delivery delay (0 = none)
-	BufCap       int           // per-direction buffer capacity (0 = unbounded); never below 64
-	WriteChunk   bool          // writes are delivered in tape-chosen chunks
+	Segment    bool          // reads return tape-chosen partial amounts
+	Latency    time.Duration // max per-segment delivery delay (0 = none)
+	BufCap     int           // per-direction buffer capacity (0 = unbounded); never below 64
+	WriteChunk bool          // writes are delivered in tape-chosen chunks
 }
 
 type Net struct {
@@ -237,9 +237,9 @@ func (c *NetConn) cap() int {
 
 type timeoutErr struct{}
 
-func (timeoutErr) Error() string   { return "i/o timeout" }
-func (timeoutErr) Timeout() bool   { return true }
-func (timeoutErr) Temporary() bool { return true }
+func (timeoutErr) Error() string     { return "i/o timeout" }
+func (timeoutErr) Timeout() bool     { return true }
+func (timeoutErr) Temporary() bool   { return true }
 func (timeoutErr) Is(err error) bool { return err == os.ErrDeadlineExceeded }
 
 func (c *NetConn) Read(p []byte) (int, error) {
